@@ -20,6 +20,30 @@ import (
 	"time"
 )
 
+const (
+	maxOnces    = 256
+	maxPtrKeys  = 1024
+	maxPools    = 16
+	maxCounters = 96
+	maxTasks    = 8192
+)
+
+type counter struct {
+	name string
+	n    int
+}
+
+type onceEntry struct {
+	o  *sync.Once
+	st onceState
+}
+
+type poolEntry struct {
+	p     *Pool
+	items [8]any
+	n     int
+}
+
 type noLock struct{}
 
 func (noLock) Lock()   {}
@@ -110,7 +134,8 @@ type Sim struct {
 	wakeCh  chan struct{}
 
 	unlockGen uint64
-	onces     map[*sync.Once]*onceState
+	onces     [maxOnces]onceEntry
+	nonces    int
 
 	steps     int
 	trace     []Step
@@ -130,11 +155,17 @@ type Sim struct {
 	abort    bool
 	abortMsg string
 
-	ptrOrder map[any]int // first-insertion order for pointer map keys
-	pools    map[*Pool][]any
-
-	Probes map[string]int
-	Faults map[string]int
+	// Fixed-size tables: map operations and slice growth carry race-detector
+	// hooks of their own (even inside //go:norace functions), so scheduler state
+	// touched by tasks lives in pre-allocated arrays.
+	ptrKeys  [maxPtrKeys]any // first-insertion order for pointer map keys
+	nptr     int
+	pools    [maxPools]poolEntry
+	npools   int
+	probes   [maxCounters]counter
+	nprobes  int
+	faults   [maxCounters]counter
+	nfaults  int
 	HashSalt uint64
 	tick     int64
 }
@@ -198,8 +229,42 @@ func (s *Sim) Rng() *Rand { return s.rng }
 //go:norace
 func Probe(name string) {
 	if S != nil {
-		S.Probes[name]++
+		bump(&S.probes, &S.nprobes, name)
 	}
+}
+
+//go:norace
+func bump(tab *[maxCounters]counter, n *int, name string) {
+	for i := 0; i < *n; i++ {
+		if tab[i].name == name {
+			tab[i].n++
+			return
+		}
+	}
+	if *n < maxCounters {
+		tab[*n] = counter{name, 1}
+		*n++
+	}
+}
+
+// Probes / Faults return the counters of the run.
+//
+//go:norace
+func (s *Sim) Probes() map[string]int {
+	m := map[string]int{}
+	for i := 0; i < s.nprobes; i++ {
+		m[s.probes[i].name] = s.probes[i].n
+	}
+	return m
+}
+
+//go:norace
+func (s *Sim) Faults() map[string]int {
+	m := map[string]int{}
+	for i := 0; i < s.nfaults; i++ {
+		m[s.faults[i].name] = s.faults[i].n
+	}
+	return m
 }
 
 // Fault counts an injected fault that actually fired.
@@ -207,7 +272,7 @@ func Probe(name string) {
 //go:norace
 func Fault(name string) {
 	if S != nil {
-		S.Faults[name]++
+		bump(&S.faults, &S.nfaults, name)
 	}
 }
 
@@ -259,13 +324,9 @@ func Run(cfg Config, rng *Rand, main func()) (res Result) {
 		cfg:      cfg,
 		rng:      rng,
 		wakeCh:   make(chan struct{}, 1),
-		onces:    map[*sync.Once]*onceState{},
 		edges:    map[uint64]struct{}{},
-		ptrOrder: map[any]int{},
-		pools:    map[*Pool][]any{},
-		Probes:   map[string]int{},
-		Faults:   map[string]int{},
 		start:    time.Now(),
+		tasks:    make([]*Task, 0, maxTasks),
 		lastTask: -1,
 	}
 	s.traceHash = 14695981039346656037
@@ -307,7 +368,10 @@ func (s *Sim) spawn(parent, site int, name string, f func()) *Task {
 	if s.cfg.Strategy == StratPCT {
 		t.prio = 1000 + s.rng.Choose(1000)
 	}
-	s.tasks = append(s.tasks, t)
+	if len(s.tasks) >= maxTasks {
+		panic("simrt: too many tasks")
+	}
+	s.tasks = append(s.tasks, t) // capacity pre-allocated: no growth
 	go t.main(f)
 	return t
 }
@@ -655,10 +719,20 @@ func OnceDo(site int, o *sync.Once, f func()) {
 		return
 	}
 	t.park(site, tsParked)
-	st := S.onces[o]
+	var st *onceState
+	for i := 0; i < S.nonces; i++ {
+		if S.onces[i].o == o {
+			st = &S.onces[i].st
+			break
+		}
+	}
 	if st == nil {
-		st = &onceState{}
-		S.onces[o] = st
+		if S.nonces >= maxOnces {
+			panic("simrt: too many sync.Once objects")
+		}
+		S.onces[S.nonces].o = o
+		st = &S.onces[S.nonces].st
+		S.nonces++
 		defer func() {
 			st.done = true
 			S.unlockGen++
